@@ -134,9 +134,78 @@ fn fam_flow_simple(name: &'static str, thorough_only: bool, f: WSimpleFam, level
     }
 }
 
+/// Layered unit-capacity networks s -> X -> M -> Y -> t with X -> Y shortcuts on 8 nodes: the smallest
+/// shape in which a shortest-augmenting-path search has to cancel flow pushed along an earlier path
+/// (graphs on <= 4-5 nodes never need it).  Every subset of the 16 candidate arcs.
+fn layered_edges(mask: u64) -> Vec<(usize, usize, i64)> {
+    // s=0, X={1,2}, M={3,4}, Y={5,6}, t=7
+    let mut cand: Vec<(usize, usize)> = vec![(0, 1), (0, 2)];
+    for x in [1, 2] {
+        for m in [3, 4] {
+            cand.push((x, m));
+        }
+    }
+    for m in [3, 4] {
+        for y in [5, 6] {
+            cand.push((m, y));
+        }
+    }
+    for x in [1, 2] {
+        for y in [5, 6] {
+            cand.push((x, y));
+        }
+    }
+    cand.push((5, 7));
+    cand.push((6, 7));
+    cand.iter().enumerate().filter(|(i, _)| mask >> i & 1 == 1).map(|(_, &(a, b))| (a, b, 1)).collect()
+}
+fn run_flow_st(ctx: &mut Ctx, n: usize, edges: Vec<(usize, usize, i64)>) {
+    // source 0, sink n-1 only (all pairs would multiply the family by 56 without adding shapes)
+    use petgraph::visit::{EdgeIndexable, EdgeRef, IntoEdgeReferences};
+    type T = Directed;
+    let abs: Abs<i64> = Abs::new(n, true, edges);
+    ctx.nontrivial = abs.edges.len() >= 6;
+    let au: Abs<u32> = abs.map_w(|w| *w as u32);
+    let cut = vh::algs::opt::min_cut(n, &abs.edges, 0, n - 1);
+    macro_rules! one {
+        ($e:expr) => {{
+            let e = $e;
+            let desc = || format!("{} encoding of {:?}", e.name, abs);
+            if let Some((val, flows)) = ctx.g("ford_fulkerson", &desc, || petgraph::algo::ford_fulkerson(&e.g, e.id(0), e.id(n - 1))) {
+                let mut bal = vec![0i64; n];
+                let mut ok = true;
+                for er in (&e.g).edge_references() {
+                    let f = flows.get(EdgeIndexable::to_index(&e.g, er.id())).cloned().unwrap_or(99) as i64;
+                    ok &= f <= *er.weight() as i64;
+                    bal[e.abs(er.source())] -= f;
+                    bal[e.abs(er.target())] += f;
+                }
+                ok &= (1..n - 1).all(|v| bal[v] == 0) && -bal[0] == val as i64;
+                ctx.mix(&val);
+                if !ok {
+                    ctx.viol("ford_fulkerson", "flow is not feasible (capacity / conservation / value)", format!("{} value {} flows {:?}", desc(), val, flows));
+                } else if val as i64 != cut {
+                    ctx.viol("ford_fulkerson", "value differs from the capacity of a minimum s-t cut", format!("{} s 0 t {} value {} flows {:?} min cut {}", desc(), n - 1, val, flows, cut));
+                }
+            }
+        }};
+    }
+    one!(enc::graph::<T, u32, _>(&au));
+    one!(enc::graph_rev::<T, u8, _>(&au));
+    one!(enc::stable_holes::<T, u16, _>(&au));
+}
+
 fn families(a: &Args) -> Vec<Family> {
     let t = a.thorough();
     vec![
+        Family {
+            name: "flow-layered8",
+            thorough_only: false,
+            count: 1 << 16,
+            bounds: "flow: every subset of the 16 arcs of the layered unit-capacity network s -> {x1,x2} -> {m1,m2} -> {y1,y2} -> t with all x -> y shortcuts (8 nodes), source s, sink t, on Graph (two insertion orders) and StableGraph with vacancies - the smallest family in which augmenting-path search must cancel earlier flow".into(),
+            run: Box::new(|idx, ctx| run_flow_st(ctx, 8, layered_edges(idx))),
+            describe: Box::new(|idx| json!({"flow": {"n": 8, "edges": layered_edges(idx), "s": 0, "t": 7}})),
+        },
         fam_match_simple("matching-ungraphs", false, SimpleFam::new(0..=4, false, true), 1),
         fam_match_simple("matching-ungraphs5-loopfree", false, SimpleFam::new(5..=5, false, false), 1),
         fam_match_list("matching-lists4", false, ListFam::new(4, if t { 4 } else { 3 }, false), 1),
